@@ -236,6 +236,8 @@ func runC04(c *Ctx) {
 		// "a replay is treated exactly like an invalid handshake": WrapConn's failure path is kind-blind
 		// (C03's rules on WrapConn)
 		importObls(c, "C03", runC03, "X03", func(k string) bool { return containsAny(k, "WrapConn") })
+		// a handshake path that keeps the stamp lock blocks every later handshake: nothing is accepted any more
+		importObls(c, "C10", runC10, "X10", func(k string) bool { return containsAny(k, "lock-pairing") })
 	}
 	sharedDigestRule(c, c.P, "R6", "transports/obfs4", "common/replayfilter")
 	// "accepted at most once" rests on the filter's test-and-set being one atomic step for
